@@ -5,6 +5,16 @@ VERIF = os.path.dirname(os.path.dirname(os.path.abspath(__file__)))
 
 # id -> (category, technique, level text, level note, design ref)
 CHECKS = {
+ "C14": ("exploration",
+         "runtime monitoring: permutation / canonical-order monitor for sort() (element multisets by name lookup and PartialEq, name-index coherence, order of /begin lines in the written text, reload equality, idempotence)",
+         "Generated documents (up to 3 modules, all element kinds, shuffled and interleaved, comments, IF_DATA) are loaded and sorted; every list must hold the same elements with equal content and a coherent name index in ascending name order, singletons must be unchanged, the written text must list module-level elements grouped by kind and ascending by name, load(write(sorted)) must equal the sorted model including list order, and a second sort() must change neither model nor text. 3 000 / 80 000 documents.",
+         "trusts: duplicate-free names (documents with duplicate names are skipped); the independent lexer for the written order; module-level comments are dropped by design",
+         "DESIGN.md section 3 C14"),
+ "C15": ("exploration",
+         "runtime monitoring: placement-order monitor over generated edit histories (order model of DESIGN.md appendix F checked against the order of /begin lines after every sort_new_items / write), panic and overflow monitor",
+         "Histories of up to 60 (quick) / 400 (thorough) operations over {push a new element of one of 12 kinds, merge a generated module with disjoint names, sort_new_items, write} on loaded modules of 5-400 elements, plus sweeps of k = 8, 20, 64 consecutive sort_new_items calls with interleaved pushes, are executed with overflow checks; after each sort_new_items / write the written order must keep the placed elements in their relative order and put new elements directly behind the last placed element of their kind (at the end if there is none). 300 / 10 000 histories.",
+         "trusts: the order model; order inside a run of new elements unconstrained; singletons, IF_DATA and USER_RIGHTS excluded from the order comparison",
+         "DESIGN.md section 3 C15"),
  "C11": ("exploration",
          "runtime monitoring: totality (panic) and purity monitor for check() on arbitrary and structurally odd models; report-vs-reference-graph monitor on generated consistent modules and all their single-reference corruptions",
          "check() runs under the crash monitor and a purity cross-check (written text before/after) on grammar-generated documents with arbitrary semantics and on structurally odd modules (6-8 STD_AXIS AXIS_DESCR, duplicate names, no MOD_PAR, empty lists, THIS. in directly used typedefs, everything dangling). Fully consistent modules from the module generator (every reference site of the frozen site table populated) must yield an empty report; each single covered reference replaced by a fresh name must yield a CrossReferenceError naming it and no unrelated cross-reference report. 2 000 / 50 000 modules, a third / all of the references corrupted one at a time; floor: every covered site corrupted at least once.",
